@@ -1,7 +1,1315 @@
-//! C03 — not implemented yet.
+//! C03 — multithreaded BGZF I/O equals single-threaded I/O under every schedule.
+//!
+//! The completion order of the block tasks is owned by the case: the H1 hook of noodles-bgzf parks
+//! every deflate / inflate task at its first statement and `io_adv::gate` releases them in the order
+//! the generated schedule dictates. The pool size is process-wide in rayon, so every pool size is
+//! its own sub-check whose shard processes are started with `RAYON_NUM_THREADS=n`.
+//!
+//! Writer oracle: the bytes in the sink after `finish()` are identical to what `bgzf::io::Writer`
+//! emits for the same write/flush calls and level; a sink that fails at its k-th `write` makes some
+//! later write/flush/finish return `Err` (what the sink accepted before is a prefix of the
+//! single-threaded output); everything terminates.
+//! Reader oracle: every call returns what the single-threaded `Reader` returns for the same call
+//! history (bytes, counts, virtual positions, also after seeks); on a damaged file the calls before
+//! the first error agree and the error surfaces from that call or at the latest from `finish()`.
 
+use super::c01::first_diff;
+use super::c02::{Len, Op, Target, UTarget, len_strategy, utarget_strategy};
+use crate::engine::shard::Recorder;
 use crate::engine::*;
+use crate::ensure;
+use crate::r#gen::layout::{Layout, Model, layout};
+use crate::r#gen::payload::{Payload, len_strategy as payload_len};
+use crate::io_adv::gate::{Decision, Gate, Pick, Plan, RunPlan, RunReport, ident};
+use noodles_bgzf::{self as bgzf, VirtualPosition, gzi};
+use proptest::prelude::*;
+use serde::{Deserialize, Serialize};
+use std::io::{self, BufRead, Cursor, Read, SeekFrom, Write};
+use std::sync::atomic::{AtomicUsize, Ordering};
+use std::sync::{Arc, Mutex};
+use std::time::Duration;
+
+/// No-progress fallback of the gate controller: affects exploration only, never the verdict.
+const FALLBACK: Duration = Duration::from_millis(120);
+/// The enumeration of schedule windows needs the parked sets to be reproducible: be patient.
+const FALLBACK_ENUM: Duration = Duration::from_millis(1500);
+const MAX_BUF_SIZE: usize = 65495;
+
+/// Per-case time budget in seconds (`SubOpts::case_budget_s`); the engine re-runs an attributed
+/// case alone with ten times this budget.
+const CASE_BUDGET_S: u64 = 6;
+
+// ------------------------------------------------------------------------------------------------
+// Watchdog. A case that does not return (a genuine `finish()`-never-returns hang of noodles) would
+// otherwise hold its shard until the shard's wall-clock limit. In a shard process the watchdog ends
+// the process once a case has exceeded its budget; the engine then attributes the death to the
+// current case (`isolate`) and re-runs that case alone, in a fresh process without this watchdog,
+// with the 10x budget — only a hang reproduced there becomes a violation. The watchdog itself never
+// produces a verdict.
+// ------------------------------------------------------------------------------------------------
+
+static DEADLINE: Mutex<Option<std::time::Instant>> = Mutex::new(None);
+static WATCHDOG: std::sync::Once = std::sync::Once::new();
+
+struct CaseTimer;
+
+impl CaseTimer {
+    fn start() -> CaseTimer {
+        let in_shard = std::env::args().nth(1).as_deref() == Some("shard");
+        if in_shard {
+            WATCHDOG.call_once(|| {
+                let _ = std::thread::Builder::new().name("c03-watchdog".into()).spawn(|| {
+                    loop {
+                        std::thread::sleep(Duration::from_millis(200));
+                        let expired = match DEADLINE.lock() {
+                            Ok(g) => g.map(|d| std::time::Instant::now() >= d).unwrap_or(false),
+                            Err(_) => false,
+                        };
+                        if expired {
+                            // SAFETY: plain process termination
+                            unsafe { libc::_exit(97) };
+                        }
+                    }
+                });
+            });
+            if let Ok(mut g) = DEADLINE.lock() {
+                *g = Some(std::time::Instant::now() + Duration::from_secs(CASE_BUDGET_S));
+            }
+        }
+        CaseTimer
+    }
+}
+
+impl Drop for CaseTimer {
+    fn drop(&mut self) {
+        if let Ok(mut g) = DEADLINE.lock() {
+            *g = None;
+        }
+    }
+}
+
+fn f1(sig: impl Into<String>, msg: String) -> Vec<Fail> {
+    vec![Fail::new(sig, msg)]
+}
+
+fn picks(s: &[(u8, bool)]) -> Vec<Pick> {
+    s.iter().map(|(idx, overlap)| Pick { idx: *idx, overlap: *overlap }).collect()
+}
+
+fn schedule_strategy(max: usize) -> BoxedStrategy<Vec<(u8, bool)>> {
+    let idx = prop_oneof![
+        35 => Just(0u8),
+        25 => Just(1u8),
+        15 => Just(2u8),
+        8 => Just(3u8),
+        12 => 4u8..=17,
+        5 => Just(255u8),
+    ];
+    proptest::collection::vec((idx, prop_oneof![9 => Just(false), 1 => Just(true)]), 0..=max).boxed()
+}
+
+// ================================================================================================
+// fault-scripted sink
+// ================================================================================================
+
+#[derive(Clone, Copy, Debug, Serialize, Deserialize, PartialEq)]
+pub enum FaultKind {
+    /// `Err(ErrorKind::Other)`, sticky
+    Other,
+    /// `Err(ErrorKind::BrokenPipe)`, sticky
+    BrokenPipe,
+    /// `Ok(0)` for a non-empty buffer, sticky (`write_all` turns it into `WriteZero`)
+    Zero,
+    /// one `Err(ErrorKind::Interrupted)`; `write_all` must retry, so this is *not* a failure
+    InterruptedOnce,
+}
+
+#[derive(Clone, Debug, Serialize, Deserialize)]
+pub struct Fault {
+    /// which `write` call of the sink fails (selector over the calls of the reference run)
+    pub at: u16,
+    pub kind: FaultKind,
+    /// every later call fails as well (false: only that one call fails)
+    pub sticky: bool,
+}
+
+#[derive(Default)]
+struct SinkState {
+    bytes: Vec<u8>,
+    /// length of every accepted call
+    lens: Vec<u32>,
+    calls: u64,
+    fail_at: Option<(u64, FaultKind, bool)>,
+    tripped: bool,
+}
+
+#[derive(Clone, Default)]
+struct ScriptSink(Arc<Mutex<SinkState>>);
+
+impl ScriptSink {
+    fn new(fail_at: Option<(u64, FaultKind, bool)>) -> Self {
+        ScriptSink(Arc::new(Mutex::new(SinkState { fail_at, ..Default::default() })))
+    }
+    fn lock(&self) -> std::sync::MutexGuard<'_, SinkState> {
+        match self.0.lock() {
+            Ok(g) => g,
+            Err(p) => p.into_inner(),
+        }
+    }
+}
+
+impl Write for ScriptSink {
+    fn write(&mut self, buf: &[u8]) -> io::Result<usize> {
+        let mut g = self.lock();
+        let k = g.calls;
+        g.calls += 1;
+        if let Some((at, kind, sticky)) = g.fail_at {
+            let sticky = sticky && kind != FaultKind::InterruptedOnce;
+            if k == at || (g.tripped && sticky) {
+                g.tripped = true;
+                return match kind {
+                    FaultKind::Other => Err(io::Error::other("scripted sink failure")),
+                    FaultKind::BrokenPipe => Err(io::Error::new(io::ErrorKind::BrokenPipe, "scripted sink failure")),
+                    FaultKind::Zero => Ok(0),
+                    FaultKind::InterruptedOnce => Err(io::Error::new(io::ErrorKind::Interrupted, "scripted interruption")),
+                };
+            }
+        }
+        g.bytes.extend_from_slice(buf);
+        g.lens.push(buf.len() as u32);
+        Ok(buf.len())
+    }
+    fn flush(&mut self) -> io::Result<()> {
+        Ok(())
+    }
+}
+
+// ================================================================================================
+// writer
+// ================================================================================================
+
+#[derive(Clone, Debug, Serialize, Deserialize)]
+pub enum WOp {
+    /// one raw `write()` offered `n` bytes; the returned count is honoured
+    Write(u32),
+    WriteAll(u32),
+    Flush,
+}
+
+#[derive(Clone, Debug, Serialize, Deserialize)]
+pub struct WCase {
+    pub payload: Payload,
+    pub level: Option<u8>,
+    pub ops: Vec<WOp>,
+    /// completion-order schedule: (index into the parked set, overlap with the next release)
+    pub schedule: Vec<(u8, bool)>,
+    /// false: no gate at all (free-running pool)
+    pub gated: bool,
+    pub fault: Option<Fault>,
+}
+
+fn wcase_strategy(tier: Tier) -> BoxedStrategy<WCase> {
+    // regime A: small payload cut into many small blocks by flushes; regime B: block-size payloads
+    let small_ops = proptest::collection::vec(
+        prop_oneof![3 => (0u32..=120).prop_map(WOp::Write), 3 => (0u32..=300).prop_map(WOp::WriteAll), 4 => Just(WOp::Flush)],
+        0..=tier.pick(36usize, 60),
+    );
+    let small = ((0u8..6, 0u32..=3000, any::<u32>()).prop_map(|(class, len, seed)| Payload { class, len, seed }), small_ops);
+    let big_len = prop_oneof![
+        3 => 0u32..200,
+        3 => 60_000u32..70_000,
+        1 => proptest::sample::select(vec![65494u32, 65495, 65496, 65536, 130990]),
+        1 => 0u32..250_000,
+    ];
+    let big_ops = proptest::collection::vec(prop_oneof![3 => big_len.clone().prop_map(WOp::Write), 3 => big_len.prop_map(WOp::WriteAll), 2 => Just(WOp::Flush)], 0..=10);
+    let big = ((0u8..6, payload_len(tier.pick(330_000, 660_000)), any::<u32>()).prop_map(|(class, len, seed)| Payload { class, len, seed }), big_ops);
+    let body = prop_oneof![3 => small, 2 => big];
+    let fault = prop_oneof![
+        5 => Just(None),
+        3 => (any::<u16>(), prop_oneof![Just(FaultKind::Other), Just(FaultKind::BrokenPipe), Just(FaultKind::Zero)], any::<bool>()).prop_map(|(at, kind, sticky)| Some(Fault { at, kind, sticky })),
+        1 => any::<u16>().prop_map(|at| Some(Fault { at, kind: FaultKind::InterruptedOnce, sticky: false })),
+    ];
+    (body, prop_oneof![1 => Just(None), 5 => (0u8..=9).prop_map(Some)], schedule_strategy(40), prop_oneof![9 => Just(true), 1 => Just(false)], fault)
+        .prop_map(|((payload, ops), level, schedule, gated, fault)| WCase { payload, level, ops, schedule, gated, fault })
+        .boxed()
+}
+
+/// One primitive call of the history, as the single-threaded reference run resolved it.
+#[derive(Clone, Debug)]
+enum WPrim {
+    Write { start: usize, offered: usize, ret: usize },
+    Flush,
+}
+
+struct WOutcome {
+    verdict: Verdict,
+    reports: Vec<RunReport>,
+}
+
+fn level_of(l: Option<u8>) -> Result<Option<bgzf::io::writer::CompressionLevel>, Vec<Fail>> {
+    match l {
+        None => Ok(None),
+        Some(l) => bgzf::io::writer::CompressionLevel::new(l).map(Some).ok_or_else(|| f1("c03.level-rejected", format!("level {l} rejected"))),
+    }
+}
+
+fn run_writer(c: &WCase, fallback: Duration) -> WOutcome {
+    let _timer = CaseTimer::start();
+    let mut reports = Vec::new();
+    let verdict = run_writer_inner(c, fallback, &mut reports);
+    WOutcome { verdict, reports }
+}
+
+fn run_writer_inner(c: &WCase, fallback: Duration, reports: &mut Vec<RunReport>) -> Verdict {
+    let data = c.payload.expand();
+    let level = level_of(c.level)?;
+
+    // ---- reference: the single-threaded writer on the same calls --------------------------------
+    let ref_sink = ScriptSink::new(None);
+    let mut prims: Vec<WPrim> = Vec::new();
+    {
+        let mut b = bgzf::io::writer::Builder::default();
+        if let Some(l) = level {
+            b = b.set_compression_level(l);
+        }
+        let mut w = b.build_from_writer(ref_sink.clone());
+        let rerr = |e: io::Error| f1("c03.writer.reference-error", format!("single-threaded Writer returned {e}"));
+        let mut off = 0usize;
+        let one = |w: &mut bgzf::io::Writer<ScriptSink>, off: &mut usize, end: usize, prims: &mut Vec<WPrim>| -> Result<(), Vec<Fail>> {
+            let offered = end - *off;
+            let ret = w.write(&data[*off..end]).map_err(rerr)?;
+            if ret > offered || (offered > 0 && ret == 0) {
+                return Err(f1("c03.writer.reference-count", format!("single-threaded write({offered}) returned {ret}")));
+            }
+            prims.push(WPrim::Write { start: *off, offered, ret });
+            *off += ret;
+            Ok(())
+        };
+        for op in &c.ops {
+            match op {
+                WOp::Write(n) => {
+                    let end = (off + *n as usize).min(data.len());
+                    one(&mut w, &mut off, end, &mut prims)?;
+                }
+                WOp::WriteAll(n) => {
+                    let end = (off + *n as usize).min(data.len());
+                    while off < end {
+                        one(&mut w, &mut off, end, &mut prims)?;
+                    }
+                }
+                WOp::Flush => {
+                    w.flush().map_err(rerr)?;
+                    prims.push(WPrim::Flush);
+                }
+            }
+        }
+        while off < data.len() {
+            one(&mut w, &mut off, data.len(), &mut prims)?;
+        }
+        let _ = w.finish().map_err(rerr)?;
+    }
+    let (ref_bytes, ref_lens) = {
+        let g = ref_sink.lock();
+        (g.bytes.clone(), g.lens.clone())
+    };
+    let ref_model = Model::from_file(&ref_bytes).map_err(|e| f1("c03.writer.reference-malformed", e))?;
+    // the blocks the writers cut the payload into, in submission order (the last member is the EOF marker)
+    let nblocks = ref_model.table.len().saturating_sub(1);
+    let idents: Vec<u64> = ref_model.table[..nblocks].iter().map(|b| ident(&ref_model.flat[b.ustart as usize..(b.ustart + b.len) as usize])).collect();
+    let total_calls = ref_lens.len();
+    let fault = c.fault.as_ref().map(|f| (pick_idx(f.at, total_calls) as u64, f.kind, f.sticky));
+    let real_fault = fault.filter(|(_, k, _)| *k != FaultKind::InterruptedOnce).map(|(k, kind, _)| (k, kind));
+
+    // ---- the multithreaded writer under the schedule --------------------------------------------
+    let pool = rayon::current_num_threads();
+    let gate = if c.gated { Some(Gate::install(pool, picks(&c.schedule), fallback)) } else { None };
+    if let Some(g) = &gate {
+        g.begin_run(RunPlan { idents, plan: Plan::Writer { pool }, need: nblocks, sched_offset: Some(0) });
+    }
+    let sink = ScriptSink::new(fault);
+    let mut b = bgzf::io::multithreaded_writer::Builder::default();
+    if let Some(l) = level {
+        b = b.set_compression_level(l);
+    }
+    let mut w = b.build_from_writer(sink.clone());
+    let mut first_err: Option<(String, io::Error)> = None;
+    let mut count_mismatch: Option<String> = None;
+    // model of the staging buffer: how many blocks have been handed to the pool so far
+    let (mut staged, mut sends) = (0usize, 0usize);
+    for (i, p) in prims.iter().enumerate() {
+        match p {
+            WPrim::Write { start, offered, ret } => match w.write(&data[*start..*start + *offered]) {
+                Ok(k) => {
+                    if k != *ret {
+                        count_mismatch = Some(format!("call {i}: MultithreadedWriter::write({offered}) returned {k}, Writer::write returned {ret}"));
+                        break;
+                    }
+                    staged += k;
+                    if staged >= MAX_BUF_SIZE {
+                        sends += 1;
+                        staged = 0;
+                    }
+                }
+                Err(e) => {
+                    first_err = Some((format!("write (call {i})"), e));
+                    break;
+                }
+            },
+            WPrim::Flush => match w.flush() {
+                Ok(()) => {
+                    if staged > 0 {
+                        sends += 1;
+                        staged = 0;
+                    }
+                }
+                Err(e) => {
+                    first_err = Some((format!("flush (call {i})"), e));
+                    break;
+                }
+            },
+        }
+    }
+    let mut finished = false;
+    let mut handed_back = true;
+    if first_err.is_none() && count_mismatch.is_none() {
+        match w.finish() {
+            Ok(back) => {
+                finished = true;
+                sends = nblocks;
+                handed_back = Arc::ptr_eq(&back.0, &sink.0);
+            }
+            Err(e) => {
+                first_err = Some(("finish".into(), e));
+            }
+        }
+    }
+    // after the first error the writer is only dropped (calling it again panics: "invalid state")
+    if let Some(g) = &gate {
+        reports.push(g.end_run(sends.min(nblocks)));
+    }
+    drop(w);
+    let stats = gate.map(|g| g.uninstall()).unwrap_or_default();
+    let out = sink.lock().bytes.clone();
+
+    // ---- verdict ---------------------------------------------------------------------------------
+    if let Some(m) = count_mismatch {
+        return fail1("c03.writer.write-count", m);
+    }
+    let mut surfaced_at = "";
+    match (real_fault, &first_err) {
+        (None, Some((at, e))) => {
+            return fail1("c03.writer.unexpected-error", format!("{at} returned {e} although the sink never failed"));
+        }
+        (None, None) => {
+            if out != ref_bytes {
+                let d = first_diff(&out, &ref_bytes);
+                // say whether it is a permutation of the reference frames
+                let perm = Model::from_file(&out).ok().map(|m| {
+                    let mut a: Vec<&[u8]> = m.table.iter().map(|b| &m.file[b.cpos as usize..(b.cpos + b.clen) as usize]).collect();
+                    let mut r: Vec<&[u8]> = ref_model.table.iter().map(|b| &ref_model.file[b.cpos as usize..(b.cpos + b.clen) as usize]).collect();
+                    a.sort();
+                    r.sort();
+                    a == r
+                });
+                return fail1(
+                    "c03.writer.bytes-differ",
+                    format!(
+                        "MultithreadedWriter emitted {} bytes, Writer {} for the same calls (first difference at {:?}; same frames in another order: {:?}); completion order {:?}",
+                        out.len(),
+                        ref_bytes.len(),
+                        d,
+                        perm,
+                        reports.last().map(|r| r.completion.clone()).unwrap_or_default()
+                    ),
+                );
+            }
+            ensure!(finished, "c03.writer.harness", "finish() not reached");
+            ensure!(handed_back, "c03.writer.finish-other-sink", "finish() returned Ok with a sink that is not the one the writer was built from");
+        }
+        (Some((k, kind)), None) => {
+            return fail1(
+                "c03.writer.fault-swallowed",
+                format!("the sink failed ({kind:?}) at its write call {k} of {total_calls}, yet every write/flush and finish() returned Ok ({} bytes in the sink)", out.len()),
+            );
+        }
+        (Some((k, kind)), Some((at, _e))) => {
+            surfaced_at = if at.starts_with("finish") {
+                "fault-surfaced-at-finish"
+            } else if at.starts_with("flush") {
+                "fault-surfaced-at-flush"
+            } else {
+                "fault-surfaced-at-write"
+            };
+            if !ref_bytes.starts_with(&out) {
+                return fail1(
+                    "c03.writer.fault-prefix",
+                    format!("sink failed ({kind:?}) at call {k}: the {} bytes it accepted before are not a prefix of the single-threaded output (first difference at {:?})", out.len(), first_diff(&out, &ref_bytes)),
+                );
+            }
+        }
+    }
+    let rep = reports.last().cloned().unwrap_or_default();
+    let nontrivial = rep.overtook_in_flight();
+    Ok(Pass::new(nontrivial, key_of(c))
+        .label_if(!c.gated, "ungated")
+        .label_if(nblocks >= 2, "blocks>=2")
+        .label_if(nblocks >= 5, "blocks>=5")
+        .label_if(nblocks > pool + 1, "blocks>window")
+        .label_if(rep.reordered(), "completion-order!=submission-order")
+        .label_if(rep.max_in_flight >= 2, "in-flight>=2")
+        .label_if(rep.max_in_flight >= 4, "in-flight>=4")
+        .label_if(rep.decisions.iter().any(|d| d.fallback) || stats.fallbacks > 0, "gate-fallback")
+        .label_if(stats.task_fallbacks > 0, "gate-task-fallback")
+        .label_if(rep.unknown > 0, "gate-unknown-task")
+        .label_if(rep.drain_timeout || stats.leaked > 0, "gate-drain-timeout")
+        .label_if(c.schedule.iter().any(|s| s.1), "overlap-steps")
+        .label_if(real_fault.is_some(), "sink-fault")
+        .label_if(real_fault.is_some() && matches!(fault, Some((_, _, false))), "sink-fault-one-shot")
+        .label_if(matches!(fault, Some((_, FaultKind::InterruptedOnce, _))), "sink-interrupted-once")
+        .label_if(!surfaced_at.is_empty(), if surfaced_at.is_empty() { "-" } else { surfaced_at })
+        .label_if(c.level == Some(0), "level0")
+        .label_if(data.len() > 2 * MAX_BUF_SIZE, "payload>2-blocks"))
+}
+
+fn check_writer(c: &WCase) -> Verdict {
+    run_writer(c, FALLBACK).verdict
+}
+
+// ================================================================================================
+// reader
+// ================================================================================================
+
+#[derive(Clone, Debug, Serialize, Deserialize)]
+pub enum Corrupt {
+    /// flip one bit of one byte of member `blk` (any byte but the two BSIZE bytes): header,
+    /// CDATA, CRC32 or ISIZE — detected, if at all, when the block is parsed (in the pool task)
+    Flip { blk: u16, byte: u16, bit: u8 },
+    /// flip one bit of BSIZE of member `blk` (the framing itself is damaged)
+    FlipBsize { blk: u16, bit: u8 },
+    /// cut the file
+    Truncate { at: u16 },
+}
+
+#[derive(Clone, Debug, Serialize, Deserialize)]
+pub struct RCase {
+    pub layout: Layout,
+    pub gzi_drop_terminator: bool,
+    pub ops: Vec<Op>,
+    pub schedule: Vec<(u8, bool)>,
+    pub gated: bool,
+    pub corrupt: Option<Corrupt>,
+    /// after the multithreaded reader reported a clean end where the single-threaded reader
+    /// reports an error: seek back to the start before calling finish()
+    pub probe_seek_after_eof: bool,
+}
+
+fn rtarget_strategy() -> BoxedStrategy<Target> {
+    // no FileEnd: (file_len, 0) is the class of the stale-block defects recorded under C02
+    prop_oneof![
+        40 => (any::<u16>(), any::<u16>()).prop_map(|(blk, u)| Target::InBlock { blk, u }),
+        10 => any::<u16>().prop_map(|blk| Target::LastByte { blk }),
+        30 => any::<u16>().prop_map(|blk| Target::BlockStart { blk }),
+        12 => Just(Target::Current),
+    ]
+    .boxed()
+}
+
+fn rop_strategy() -> BoxedStrategy<Op> {
+    prop_oneof![
+        36 => len_strategy().prop_map(Op::Read),
+        14 => len_strategy().prop_map(Op::ReadExact),
+        12 => Just(Op::FillBuf),
+        12 => any::<u16>().prop_map(Op::Consume),
+        12 => rtarget_strategy().prop_map(Op::Seek),
+        6 => utarget_strategy().prop_map(Op::SeekU),
+    ]
+    .boxed()
+}
+
+fn rcase_strategy(tier: Tier) -> BoxedStrategy<RCase> {
+    let corrupt = prop_oneof![
+        6 => Just(None),
+        3 => (any::<u16>(), any::<u16>(), 0u8..8).prop_map(|(blk, byte, bit)| Some(Corrupt::Flip { blk, byte, bit })),
+        2 => any::<u16>().prop_map(|at| Some(Corrupt::Truncate { at })),
+        1 => (any::<u16>(), 0u8..16).prop_map(|(blk, bit)| Some(Corrupt::FlipBsize { blk, bit })),
+    ];
+    (
+        layout(tier.pick(10usize, 16)),
+        any::<bool>(),
+        proptest::collection::vec(rop_strategy(), 0..=tier.pick(40usize, 80)),
+        schedule_strategy(48),
+        prop_oneof![9 => Just(true), 1 => Just(false)],
+        corrupt,
+        prop_oneof![4 => Just(false), 1 => Just(true)],
+    )
+        .prop_map(|(layout, gzi_drop_terminator, ops, schedule, gated, corrupt, probe_seek_after_eof)| RCase { layout, gzi_drop_terminator, ops, schedule, gated, corrupt, probe_seek_after_eof })
+        .boxed()
+}
+
+/// A call of the history with lengths and targets resolved (a function of the case and of what
+/// the single-threaded reader did so far).
+#[derive(Clone, Debug)]
+enum RPrim {
+    Read(usize),
+    ReadExact(usize),
+    FillBuf,
+    Consume(usize),
+    SeekV(u64, u16),
+    SeekU(u64),
+}
+
+#[derive(Clone, Debug, PartialEq)]
+enum ROut {
+    Read(Vec<u8>),
+    Exact(Vec<u8>),
+    Fill(Vec<u8>),
+    Unit,
+    SeekV(u64),
+    SeekU(u64),
+    Err(io::ErrorKind, String),
+}
+
+impl ROut {
+    fn brief(&self) -> String {
+        match self {
+            ROut::Read(v) => format!("Ok({} bytes)", v.len()),
+            ROut::Exact(v) => format!("Ok(()) [{} bytes]", v.len()),
+            ROut::Fill(v) => format!("Ok(&[..{}])", v.len()),
+            ROut::Unit => "()".into(),
+            ROut::SeekV(v) => format!("Ok(({}, {}))", v >> 16, v & 0xffff),
+            ROut::SeekU(v) => format!("Ok({v})"),
+            ROut::Err(k, m) => format!("Err({k:?}: {m})"),
+        }
+    }
+    fn is_err(&self) -> bool {
+        matches!(self, ROut::Err(..))
+    }
+}
+
+struct RStep {
+    prim: RPrim,
+    out: ROut,
+    /// virtual position after the call
+    vpos: u64,
+    /// compressed position (`position()`) after the call
+    cpos: u64,
+}
+
+trait BgzfRead: Read + BufRead {
+    fn vpos_raw(&self) -> u64;
+    fn seek_v(&mut self, v: VirtualPosition) -> io::Result<VirtualPosition>;
+    fn seek_u(&mut self, index: &gzi::Index, off: u64) -> io::Result<u64>;
+}
+
+impl BgzfRead for bgzf::io::Reader<Cursor<Vec<u8>>> {
+    fn vpos_raw(&self) -> u64 {
+        u64::from(self.virtual_position())
+    }
+    fn seek_v(&mut self, v: VirtualPosition) -> io::Result<VirtualPosition> {
+        self.seek(v)
+    }
+    fn seek_u(&mut self, index: &gzi::Index, off: u64) -> io::Result<u64> {
+        self.seek_by_uncompressed_position(index, off)
+    }
+}
+
+/// Source of the multithreaded reader that counts the frames its reader thread has read
+/// completely (header `read_exact(18)` followed by a successful body `read_exact`): every such
+/// frame is handed to the pool as exactly one inflate task.
+struct CountingSrc {
+    cur: Cursor<Vec<u8>>,
+    frames: Arc<AtomicUsize>,
+    header_next: bool,
+}
+
+impl Read for CountingSrc {
+    fn read(&mut self, buf: &mut [u8]) -> io::Result<usize> {
+        self.cur.read(buf)
+    }
+    fn read_exact(&mut self, buf: &mut [u8]) -> io::Result<()> {
+        let r = self.cur.read_exact(buf);
+        match &r {
+            Ok(()) if self.header_next => self.header_next = false,
+            Ok(()) => {
+                self.frames.fetch_add(1, Ordering::SeqCst);
+                self.header_next = true;
+            }
+            Err(_) => self.header_next = true,
+        }
+        r
+    }
+}
+
+impl io::Seek for CountingSrc {
+    fn seek(&mut self, pos: SeekFrom) -> io::Result<u64> {
+        self.header_next = true;
+        self.cur.seek(pos)
+    }
+}
+
+impl BgzfRead for bgzf::io::MultithreadedReader<CountingSrc> {
+    fn vpos_raw(&self) -> u64 {
+        u64::from(self.virtual_position())
+    }
+    fn seek_v(&mut self, v: VirtualPosition) -> io::Result<VirtualPosition> {
+        bgzf::io::Seek::seek_to_virtual_position(self, v)
+    }
+    fn seek_u(&mut self, index: &gzi::Index, off: u64) -> io::Result<u64> {
+        bgzf::io::Seek::seek_with_index(self, index, SeekFrom::Start(off))
+    }
+}
+
+fn exec<R: BgzfRead>(r: &mut R, p: &RPrim, index: &gzi::Index, scratch: &mut Vec<u8>) -> ROut {
+    let wrap = |e: io::Error| ROut::Err(e.kind(), e.to_string());
+    match p {
+        RPrim::Read(n) => {
+            scratch.clear();
+            scratch.resize(*n, 0);
+            match r.read(scratch) {
+                Ok(k) => ROut::Read(scratch[..k.min(*n)].to_vec()),
+                Err(e) => wrap(e),
+            }
+        }
+        RPrim::ReadExact(n) => {
+            scratch.clear();
+            scratch.resize(*n, 0);
+            match r.read_exact(scratch) {
+                Ok(()) => ROut::Exact(scratch.clone()),
+                Err(e) => wrap(e),
+            }
+        }
+        RPrim::FillBuf => match r.fill_buf() {
+            Ok(s) => ROut::Fill(s.to_vec()),
+            Err(e) => wrap(e),
+        },
+        RPrim::Consume(n) => {
+            r.consume(*n);
+            ROut::Unit
+        }
+        RPrim::SeekV(c, u) => match VirtualPosition::try_from((*c, *u)) {
+            Ok(v) => match r.seek_v(v) {
+                Ok(ret) => ROut::SeekV(u64::from(ret)),
+                Err(e) => wrap(e),
+            },
+            Err(e) => ROut::Err(io::ErrorKind::InvalidInput, e.to_string()),
+        },
+        RPrim::SeekU(off) => match r.seek_u(index, *off) {
+            Ok(ret) => ROut::SeekU(ret),
+            Err(e) => wrap(e),
+        },
+    }
+}
+
+/// The damaged file and what the harness can still say about its framing.
+struct Damage {
+    file: Vec<u8>,
+    /// members [0, framed) of the original table are intact as frames (complete, BSIZE untouched);
+    /// their content may be damaged
+    framed: usize,
+    label: &'static str,
+}
+
+fn damage(m: &Model, c: &Option<Corrupt>) -> Damage {
+    let mut file = m.file.clone();
+    let n = m.table.len();
+    match c {
+        None => Damage { file, framed: n, label: "intact" },
+        Some(_) if n == 0 => Damage { file, framed: 0, label: "intact" },
+        Some(Corrupt::Flip { blk, byte, bit }) => {
+            let b = &m.table[pick_idx(*blk, n)];
+            // any byte of the member except BSIZE (offsets 16, 17)
+            let mut o = pick_idx(*byte, b.clen as usize - 2);
+            if o >= 16 {
+                o += 2;
+            }
+            file[b.cpos as usize + o] ^= 1 << (bit % 8);
+            // A damaged deflate stream that still ends properly but produces FEWER bytes than ISIZE
+            // is not rejected by noodles as such: the CRC is then taken over the produced bytes plus
+            // whatever the block buffer held before, so acceptance depends on the buffer's history
+            // (in both readers). That outcome is unspecified; the case gets a CRC32 flip instead.
+            let (s0, e0) = (b.cpos as usize, (b.cpos + b.clen) as usize);
+            let isize_field = u32::from_le_bytes([file[e0 - 4], file[e0 - 3], file[e0 - 2], file[e0 - 1]]) as usize;
+            let short = match crate::oracle::bgzf_walk::inflate_len_lenient(&file[s0 + 18..e0 - 8], 65536) {
+                Some(n) => n < isize_field && isize_field <= 65536,
+                None => false,
+            };
+            if short && o >= 18 && (o as u64) < b.clen - 8 {
+                file[s0 + o] ^= 1 << (bit % 8);
+                file[e0 - 8] ^= 1 << (bit % 8);
+                return Damage { file, framed: n, label: "flip-crc(substituted-for-short-inflate)" };
+            }
+            let label = if o < 16 {
+                "flip-header"
+            } else if (o as u64) < b.clen - 8 {
+                "flip-cdata"
+            } else if (o as u64) < b.clen - 4 {
+                "flip-crc"
+            } else {
+                "flip-isize"
+            };
+            Damage { file, framed: n, label }
+        }
+        Some(Corrupt::FlipBsize { blk, bit }) => {
+            let j = pick_idx(*blk, n);
+            let b = &m.table[j];
+            let o = b.cpos as usize + 16 + (*bit as usize / 8) % 2;
+            file[o] ^= 1 << (bit % 8);
+            // the same unspecified outcome (see Flip) arises when the mis-sized frame still holds a
+            // complete deflate stream that produces fewer bytes than the ISIZE found at its new end
+            let s0 = b.cpos as usize;
+            let bs = u16::from_le_bytes([file[s0 + 16], file[s0 + 17]]) as usize + 1;
+            if bs >= 26 && s0 + bs <= file.len() {
+                let e0 = s0 + bs;
+                let isize_field = u32::from_le_bytes([file[e0 - 4], file[e0 - 3], file[e0 - 2], file[e0 - 1]]) as usize;
+                let short = match crate::oracle::bgzf_walk::inflate_len_lenient(&file[s0 + 18..e0 - 8], 65536) {
+                    Some(k) => k < isize_field && isize_field <= 65536,
+                    None => false,
+                };
+                if short {
+                    file[o] ^= 1 << (bit % 8);
+                    let e = (b.cpos + b.clen) as usize;
+                    file[e - 8] ^= 1 << (bit % 8);
+                    return Damage { file, framed: n, label: "flip-crc(substituted-for-short-inflate)" };
+                }
+            }
+            Damage { file, framed: j, label: "flip-bsize" }
+        }
+        Some(Corrupt::Truncate { at }) => {
+            let cut = pick_idx(*at, file.len());
+            file.truncate(cut);
+            let framed = m.table.iter().take_while(|b| b.cpos + b.clen <= cut as u64).count();
+            Damage { file, framed, label: "truncated" }
+        }
+    }
+}
+
+struct ROutcome {
+    verdict: Verdict,
+    reports: Vec<RunReport>,
+}
+
+fn run_reader(c: &RCase, fallback: Duration) -> ROutcome {
+    let _timer = CaseTimer::start();
+    let mut reports = Vec::new();
+    let verdict = run_reader_inner(c, fallback, &mut reports);
+    ROutcome { verdict, reports }
+}
+
+fn run_reader_inner(c: &RCase, fallback: Duration, reports: &mut Vec<RunReport>) -> Verdict {
+    let m = c.layout.build();
+    let dmg = damage(&m, &c.corrupt);
+    let intact = dmg.file == m.file;
+    let eff_len = dmg.file.len() as u64;
+    let pairs = m.gzi(c.gzi_drop_terminator);
+    let index = gzi::Index::from(pairs.clone());
+    let total = m.total();
+    // a seek target is used only if a complete block header can be read there: seeking to the very
+    // end of the file is the class of the stale-block defects recorded under C02
+    let seekable = |cpos: u64| cpos + 18 <= eff_len && m.block_at(cpos).is_some();
+
+    // ---- the single-threaded reader: the reference transcript -----------------------------------
+    let mut st = bgzf::io::Reader::new(Cursor::new(dmg.file.clone()));
+    let mut steps: Vec<RStep> = Vec::new();
+    let mut scratch = Vec::with_capacity(200_000);
+    let mut off = 0u64; // model offset of the next byte (for choosing lengths only)
+    let mut avail = 0usize;
+    let mut skipped = 0usize;
+    let tail = [Op::Read(Len::Abs(97))];
+    for op in c.ops.iter().chain(tail.iter()) {
+        let len_of = |l: &Len| -> usize {
+            match l {
+                Len::Abs(n) => *n as usize,
+                Len::Rest => m.rest_of_block(off) as usize,
+                Len::RestPlus(k) => m.rest_of_block(off) as usize + *k as usize,
+                Len::Big(n) => (*n as usize).max(65536),
+            }
+        };
+        let prim = match op {
+            Op::Read(l) => {
+                let mut n = len_of(l);
+                // no >=64 KiB buffer when the file has nothing more to give (C02 stale-block defect
+                // of the single-threaded reader's direct path)
+                if n >= 65536 && st.position() + 18 > eff_len {
+                    n = 65535;
+                }
+                RPrim::Read(n)
+            }
+            Op::ReadExact(l) => {
+                let mut n = len_of(l);
+                // keep what is left of the buffer when the stream ends below 64 KiB (same defect)
+                let cap = if intact { (total.saturating_sub(off)) as usize + 60_000 } else { 60_000 };
+                n = n.min(cap);
+                RPrim::ReadExact(n)
+            }
+            Op::FillBuf => RPrim::FillBuf,
+            // a C02-only operation (not generated here)
+            Op::CrossSeek { .. } => continue,
+            Op::Consume(sel) => RPrim::Consume(pick_idx(*sel, avail + 1).min(avail)),
+            Op::Seek(t) => {
+                let ne = m.nonempty();
+                let target: Option<(u64, u16)> = match t {
+                    Target::InBlock { blk, u } if !ne.is_empty() => {
+                        let b = &m.table[ne[pick_idx(*blk, ne.len())]];
+                        Some((b.cpos, pick_idx(*u, b.len as usize) as u16))
+                    }
+                    Target::LastByte { blk } if !ne.is_empty() => {
+                        let b = &m.table[ne[pick_idx(*blk, ne.len())]];
+                        Some((b.cpos, (b.len - 1) as u16))
+                    }
+                    Target::BlockStart { blk } if !m.table.is_empty() => Some((m.table[pick_idx(*blk, m.table.len())].cpos, 0)),
+                    Target::Current => Some(VirtualPosition::from(st.virtual_position()).into()),
+                    _ => None,
+                };
+                match target {
+                    Some((cp, up)) if seekable(cp) => RPrim::SeekV(cp, up),
+                    _ => {
+                        skipped += 1;
+                        continue;
+                    }
+                }
+            }
+            Op::SeekU(t) => {
+                let ne = m.nonempty();
+                let o = match t {
+                    UTarget::Off(sel) => pick_idx(*sel, total as usize + 1) as u64,
+                    UTarget::BlockStart(sel) if !ne.is_empty() => m.table[ne[pick_idx(*sel, ne.len())]].ustart,
+                    UTarget::BlockLast(sel) if !ne.is_empty() => {
+                        let b = &m.table[ne[pick_idx(*sel, ne.len())]];
+                        b.ustart + b.len - 1
+                    }
+                    _ => total,
+                };
+                // where the index sends the reader (linear scan, not noodles' query)
+                let (bc, bu) = pairs.iter().rev().find(|p| p.1 <= o).copied().unwrap_or((0, 0));
+                if o - bu > u16::MAX as u64 || !seekable(bc) {
+                    skipped += 1;
+                    continue;
+                }
+                RPrim::SeekU(o)
+            }
+        };
+        let out = exec(&mut st, &prim, &index, &mut scratch);
+        match (&prim, &out) {
+            (_, ROut::Read(v)) | (_, ROut::Exact(v)) => {
+                off += v.len() as u64;
+                avail = 0;
+            }
+            (_, ROut::Fill(v)) => avail = v.len(),
+            (RPrim::Consume(n), _) => {
+                off += *n as u64;
+                avail -= *n;
+            }
+            (RPrim::SeekV(cp, up), ROut::SeekV(_)) => {
+                off = m.resolve(*cp, *up).unwrap_or(off);
+                avail = 0;
+            }
+            (RPrim::SeekU(o), ROut::SeekU(_)) => {
+                off = *o;
+                avail = 0;
+            }
+            _ => {}
+        }
+        let err = out.is_err();
+        steps.push(RStep { prim, out, vpos: u64::from(st.virtual_position()), cpos: st.position() });
+        if err {
+            break;
+        }
+    }
+    drop(st);
+    let st_err_at = steps.iter().position(|s| s.out.is_err());
+    if intact {
+        if let Some(i) = st_err_at {
+            // reading past the end with read_exact is the only legitimate error on an intact file
+            let ok = matches!((&steps[i].prim, &steps[i].out), (RPrim::ReadExact(_), ROut::Err(io::ErrorKind::UnexpectedEof, _)));
+            ensure!(ok, "c03.reader.reference-error", "single-threaded Reader failed on an intact file at call {i} {:?}: {}", steps[i].prim, steps[i].out.brief());
+        }
+    }
+
+    // ---- runs (between seeks) and what each can spawn ---------------------------------------------
+    // frame index of compressed offset p = number of members that start before p
+    let frame_idx = |p: u64| m.table.partition_point(|b| b.cpos < p);
+    let frame_ident = |j: usize| {
+        let b = &m.table[j];
+        ident(&dmg.file[b.cpos as usize..(b.cpos + b.clen) as usize])
+    };
+    let pool = rayon::current_num_threads();
+    let buffers = pool + 2;
+    struct RunInfo {
+        start: usize,
+        consume: usize,
+    }
+    let mut runs: Vec<RunInfo> = vec![RunInfo { start: 0, consume: 0 }];
+    for s in &steps {
+        match s.prim {
+            RPrim::SeekV(cp, _) => runs.push(RunInfo { start: frame_idx(cp), consume: 0 }),
+            RPrim::SeekU(o) => {
+                let (bc, _) = pairs.iter().rev().find(|p| p.1 <= o).copied().unwrap_or((0, 0));
+                runs.push(RunInfo { start: frame_idx(bc), consume: 0 })
+            }
+            _ => {}
+        }
+        if s.out.is_err() {
+            break;
+        }
+        if let Some(r) = runs.last_mut() {
+            r.consume = frame_idx(s.cpos).saturating_sub(r.start);
+        }
+    }
+    let plan_of = |r: &RunInfo, k: usize| -> RunPlan {
+        let end = dmg.framed.max(r.start);
+        RunPlan {
+            idents: (r.start..end).map(frame_ident).collect(),
+            plan: Plan::Reader { buffers, consume: r.consume },
+            // on a damaged file the consumer may go one block further than the last good call shows
+            need: if intact { r.consume } else { end - r.start },
+            sched_offset: Some((k * 11) % c.schedule.len().max(1)),
+        }
+    };
+
+    // ---- the multithreaded reader under the schedule ---------------------------------------------
+    let gate = if c.gated { Some(Gate::install(pool, picks(&c.schedule), fallback)) } else { None };
+    let mut run_no = 0usize;
+    if let Some(g) = &gate {
+        g.begin_run(plan_of(&runs[0], 0));
+    }
+    let frames = Arc::new(AtomicUsize::new(0));
+    let mut mt = bgzf::io::MultithreadedReader::new(CountingSrc { cur: Cursor::new(dmg.file.clone()), frames: frames.clone(), header_next: true });
+    // frames read (= tasks spawned) before the current run
+    let mut frames_before = 0usize;
+    let end_run = |mt: &mut bgzf::io::MultithreadedReader<CountingSrc>, frames_before: &mut usize, reports: &mut Vec<RunReport>| {
+        if let Some(g) = &gate {
+            // `get_mut` pauses the reader thread (exactly what a seek does first); after that the
+            // number of frames it read — hence of tasks it spawned in this run — is final
+            let _ = mt.get_mut();
+            let now = frames.load(Ordering::SeqCst);
+            reports.push(g.end_run(now - *frames_before));
+            *frames_before = now;
+        }
+    };
+    let mut failure: Option<Vec<Fail>> = None;
+    let mut mt_eof_where_st_err = false;
+    let mut mt_err_seen = false;
+    for (i, s) in steps.iter().enumerate() {
+        if matches!(s.prim, RPrim::SeekV(..) | RPrim::SeekU(_)) {
+            end_run(&mut mt, &mut frames_before, reports);
+            run_no += 1;
+            if let Some(g) = &gate {
+                g.begin_run(plan_of(&runs[run_no.min(runs.len() - 1)], run_no));
+            }
+        }
+        let out = exec(&mut mt, &s.prim, &index, &mut scratch);
+        if s.out.is_err() {
+            // the first error of the single-threaded reader: the multithreaded reader reports an
+            // error here as well, or looks like a clean end of file and reports it from finish()
+            match (&s.prim, &out) {
+                (_, ROut::Err(..)) => mt_err_seen = true,
+                (RPrim::Read(_), ROut::Read(v)) if v.is_empty() => mt_eof_where_st_err = true,
+                (RPrim::FillBuf, ROut::Fill(v)) if v.is_empty() => mt_eof_where_st_err = true,
+                (RPrim::SeekV(..), ROut::SeekV(_)) | (RPrim::SeekU(_), ROut::SeekU(_)) => mt_eof_where_st_err = true,
+                _ => {
+                    failure = Some(f1(
+                        "c03.reader.data-where-reference-fails",
+                        format!("call {i} {:?}: single-threaded Reader returns {}, MultithreadedReader returns {}", s.prim, s.out.brief(), out.brief()),
+                    ));
+                }
+            }
+            break;
+        }
+        if out != s.out {
+            let sig = match (&out, &s.out) {
+                (ROut::Err(..), _) => "c03.reader.unexpected-error",
+                (ROut::Read(a), ROut::Read(b)) if a.len() != b.len() => "c03.reader.read-count",
+                (ROut::Fill(a), ROut::Fill(b)) if a.len() != b.len() => "c03.reader.fill_buf-length",
+                (ROut::SeekV(_), _) | (ROut::SeekU(_), _) => "c03.reader.seek-return",
+                _ => "c03.reader.bytes-differ",
+            };
+            failure = Some(f1(sig, format!("call {i} {:?}: single-threaded Reader returns {}, MultithreadedReader returns {}", s.prim, s.out.brief(), out.brief())));
+            break;
+        }
+        let v = mt.vpos_raw();
+        if v != s.vpos {
+            let after_seek = matches!(s.prim, RPrim::SeekV(..) | RPrim::SeekU(_));
+            failure = Some(f1(
+                if after_seek { "c03.reader.vpos-after-seek" } else { "c03.reader.vpos" },
+                format!("after call {i} {:?}: single-threaded virtual_position() = ({}, {}), multithreaded = ({}, {})", s.prim, s.vpos >> 16, s.vpos & 0xffff, v >> 16, v & 0xffff),
+            ));
+            break;
+        }
+    }
+    // the probe: a clean-looking end, then a seek (which pauses the reader thread and discards its result)
+    let mut probed = false;
+    if failure.is_none() && mt_eof_where_st_err && c.probe_seek_after_eof && seekable(0) {
+        end_run(&mut mt, &mut frames_before, reports);
+        run_no += 1;
+        if let Some(g) = &gate {
+            let r = RunInfo { start: 0, consume: 1 };
+            g.begin_run(plan_of(&r, run_no));
+        }
+        let _ = exec(&mut mt, &RPrim::SeekV(0, 0), &index, &mut scratch);
+        probed = true;
+    }
+    // finish(): always terminates; hands the source back unless an error is pending
+    let fin = mt.finish();
+    if let Some(g) = &gate {
+        // finish() has joined the reader thread: the frame count is final
+        reports.push(g.end_run(frames.load(Ordering::SeqCst) - frames_before));
+    }
+    drop(mt);
+    let stats = gate.map(|g| g.uninstall()).unwrap_or_default();
+    if let Some(f) = failure {
+        return Err(f);
+    }
+    if intact {
+        if let Err(e) = &fin {
+            return fail1("c03.reader.finish-error-on-intact-file", format!("MultithreadedReader::finish() on an intact file: {e}"));
+        }
+    }
+    if mt_eof_where_st_err && fin.is_ok() {
+        let i = st_err_at.unwrap_or(0);
+        let sig = if probed { "c03.reader.frame-error-lost-after-seek" } else { "c03.reader.error-dropped" };
+        return fail1(
+            sig,
+            format!(
+                "{} file: at call {i} {:?} the single-threaded Reader fails with {}, the MultithreadedReader reports a clean end{} and finish() returns Ok: the damage is never reported",
+                dmg.label,
+                steps[i].prim,
+                steps[i].out.brief(),
+                if probed { ", is then sought to (0, 0)" } else { "" }
+            ),
+        );
+    }
+
+    let reordered = reports.iter().any(|r| r.reordered());
+    let nontrivial = reports.iter().any(|r| r.overtook_in_flight());
+    let seeks = steps.iter().filter(|s| matches!(s.prim, RPrim::SeekV(..) | RPrim::SeekU(_))).count();
+    let max_in_flight = reports.iter().map(|r| r.max_in_flight).max().unwrap_or(0);
+    Ok(Pass::new(nontrivial, key_of(c))
+        .label(dmg.label)
+        .label_if(!c.gated, "ungated")
+        .label_if(reordered, "completion-order!=submission-order")
+        .label_if(max_in_flight >= 2, "in-flight>=2")
+        .label_if(max_in_flight >= 4, "in-flight>=4")
+        .label_if(m.table.len() >= 5, "frames>=5")
+        .label_if(m.table.len() > buffers, "frames>buffers")
+        .label_if(m.has_mid_empty(), "empty-block-mid-file")
+        .label_if(seeks > 0, "seek")
+        .label_if(seeks > 0 && nontrivial, "seek+reordered")
+        .label_if(steps.iter().any(|s| matches!(s.prim, RPrim::SeekU(_))), "seek-with-index")
+        .label_if(skipped > 0, "seek-skipped(end-of-file class)")
+        .label_if(st_err_at.is_some() && !intact, "reference-error")
+        .label_if(mt_err_seen, "error-from-call")
+        .label_if(mt_eof_where_st_err, "error-only-from-finish")
+        .label_if(probed, "probe-seek-after-eof")
+        .label_if(!intact && st_err_at.is_none(), "damage-not-reached")
+        .label_if(reports.iter().any(|r| r.decisions.iter().any(|d| d.fallback)) || stats.fallbacks > 0, "gate-fallback")
+        .label_if(stats.task_fallbacks > 0, "gate-task-fallback")
+        .label_if(reports.iter().any(|r| r.unknown > 0), "gate-unknown-task")
+        .label_if(reports.iter().any(|r| r.drain_timeout) || stats.leaked > 0, "gate-drain-timeout")
+        .label_if(steps.iter().any(|s| matches!(s.prim, RPrim::Read(n) if n >= 65536)), "read>=64KiB"))
+}
+
+fn check_reader(c: &RCase) -> Verdict {
+    run_reader(c, FALLBACK).verdict
+}
+
+// ================================================================================================
+// exhaustive schedule windows
+// ================================================================================================
+
+#[derive(Clone, Debug, Serialize, Deserialize)]
+pub struct Window {
+    /// "writer" | "reader" | "reader-seek"
+    pub kind: String,
+    /// number of data blocks
+    pub n: usize,
+    pub schedule: Vec<u8>,
+}
+
+const SEG: usize = 12;
+
+fn window_run(w: &Window) -> (Verdict, Vec<RunReport>) {
+    let sched: Vec<(u8, bool)> = w.schedule.iter().map(|i| (*i, false)).collect();
+    // distinct small blocks
+    let blocks: Vec<Payload> = (0..w.n).map(|i| Payload { class: 2, len: 9 + i as u32, seed: 100 + i as u32 }).collect();
+    match w.kind.as_str() {
+        "writer" => {
+            let len: u32 = blocks.iter().map(|b| b.len).sum();
+            let mut ops = Vec::new();
+            for b in &blocks {
+                ops.push(WOp::WriteAll(b.len));
+                ops.push(WOp::Flush);
+            }
+            let c = WCase { payload: Payload { class: 2, len, seed: 7 }, level: Some(1), ops, schedule: sched, gated: true, fault: None };
+            let o = run_writer(&c, FALLBACK_ENUM);
+            (o.verdict, o.reports)
+        }
+        kind => {
+            let mut ops: Vec<Op> = Vec::new();
+            if kind == "reader-seek" {
+                // read two blocks, go back to the second block, read to the end
+                ops.push(Op::Read(Len::Rest));
+                ops.push(Op::Read(Len::Rest));
+                ops.push(Op::Seek(Target::BlockStart { blk: ((1usize << 16) / (w.n + 1) + 1) as u16 }));
+            }
+            for _ in 0..w.n + 1 {
+                ops.push(Op::Read(Len::Rest));
+            }
+            let c = RCase { layout: Layout { blocks, eof: true, level: 1 }, gzi_drop_terminator: false, ops, schedule: sched, gated: true, corrupt: None, probe_seek_after_eof: false };
+            let o = run_reader(&c, FALLBACK_ENUM);
+            (o.verdict, o.reports)
+        }
+    }
+}
+
+/// Observable decisions of a run, with their positions in the schedule.
+fn needed_decisions(w: &Window, reports: &[RunReport]) -> (Vec<(usize, Decision)>, bool) {
+    let mut v = Vec::new();
+    let mut clean = true;
+    for (k, r) in reports.iter().enumerate() {
+        // run k starts at schedule position (k * 11) % len for readers (see plan_of), 0 for the writer
+        let base = if w.kind == "writer" { 0 } else { (k * 11) % w.schedule.len().max(1) };
+        for (j, d) in r.decisions.iter().enumerate() {
+            if d.needed {
+                if d.fallback {
+                    clean = false;
+                }
+                v.push((base + j, d.clone()));
+            }
+        }
+        if r.unknown > 0 || r.drain_timeout {
+            clean = false;
+        }
+    }
+    (v, clean)
+}
+
+fn window_enumerate(kind: &str, n: usize, rec: &mut Recorder) -> bool {
+    // schedule laid out in fixed segments: run k of a reader case uses positions k*11.. (11 < SEG)
+    let len = if kind == "reader-seek" { 2 * SEG } else { SEG };
+    let mut sched = vec![0u8; len];
+    let mut count = 0u64;
+    loop {
+        let w = Window { kind: kind.to_string(), n, schedule: sched.clone() };
+        let mut attempt = 0;
+        rec.about_to_run(&|| serde_json::to_value(&w).unwrap_or(serde_json::Value::Null));
+        let (verdict, decisions) = loop {
+            let (verdict, reports) = window_run(&w);
+            let (d, clean) = needed_decisions(&w, &reports);
+            if clean || verdict.is_err() || attempt >= 3 {
+                assert!(clean || verdict.is_err(), "schedule window {kind}/{n}: the parked sets were not reproducible (gate fallbacks) — machine too loaded to enumerate");
+                break (verdict, d);
+            }
+            attempt += 1;
+        };
+        let reordered = decisions.iter().any(|(_, d)| d.chosen > 0);
+        let verdict = verdict.map(|p| Pass { nontrivial: reordered, key: key_of(&w), labels: p.labels, evals: 1 }.label(if kind == "writer" { "window-writer" } else if kind == "reader" { "window-reader" } else { "window-reader-seek" }));
+        count += 1;
+        if !rec.record(&|| serde_json::to_value(&w).unwrap_or(serde_json::Value::Null), verdict) {
+            return false;
+        }
+        assert!(count < 20_000, "schedule window {kind}/{n} does not terminate");
+        // next schedule in depth-first order: bump the last decision that has an untried option
+        let mut bumped = false;
+        for (pos, d) in decisions.iter().rev() {
+            assert!(*pos < len, "schedule window {kind}/{n}: decision beyond the schedule");
+            if d.chosen + 1 < d.options {
+                sched[*pos] = (d.chosen + 1) as u8;
+                for later in decisions.iter().filter(|(p, _)| p > pos) {
+                    sched[later.0] = 0;
+                }
+                bumped = true;
+                break;
+            }
+        }
+        if !bumped {
+            return true;
+        }
+    }
+}
+
+fn window_configs(tier: Tier) -> Vec<(&'static str, usize)> {
+    let max_n = tier.pick(4usize, 5);
+    let mut v = Vec::new();
+    for n in 1..=max_n {
+        v.push(("writer", n));
+        v.push(("reader", n));
+    }
+    for n in 3..=max_n {
+        v.push(("reader-seek", n));
+    }
+    v
+}
+
+fn window_shard(sc: &ShardCtx, rec: &mut Recorder) {
+    for (i, (kind, n)) in window_configs(sc.tier).into_iter().enumerate() {
+        if i % sc.nshards.max(1) != sc.shard {
+            continue;
+        }
+        if !window_enumerate(kind, n, rec) {
+            return;
+        }
+    }
+}
+
+fn window_replay(v: &serde_json::Value) -> Verdict {
+    let w: Window = serde_json::from_value(v.clone()).map_err(|e| f1("c03.window.bad-replay", format!("{e}")))?;
+    window_run(&w).0
+}
+
+// ================================================================================================
+// registration
+// ================================================================================================
+
+const POOLS: [(usize, &str, &str, &str); 6] =
+    [(1, "1", "writer_p1", "reader_p1"), (2, "2", "writer_p2", "reader_p2"), (3, "3", "writer_p3", "reader_p3"), (4, "4", "writer_p4", "reader_p4"), (8, "8", "writer_p8", "reader_p8"), (16, "16", "writer_p16", "reader_p16")];
+
+const WRULE: &str = "MultithreadedWriter vs Writer on the same write/flush calls and level, deflate tasks released in the generated completion order, optional sink fault at the k-th write; non-trivial = from hook events: a task completed before an earlier-submitted task that was in flight at the same time; distinct by hash of the whole case";
+const RRULE: &str = "MultithreadedReader vs Reader on the same call history (read/read_exact/fill_buf/consume/seek/seek_with_index) over a G-layout file, inflate tasks released in the generated completion order, optional damage (bit flip in block j / truncation); non-trivial = from hook events: a task completed before an earlier-submitted task that was in flight at the same time; distinct by hash of the whole case";
+const ERULE: &str = "every feasible release order (depth-first over the parked sets the gate reports) for 1..=5 (quick: 4) small blocks: writer, sequential reader, reader with one backward seek; non-trivial = some release was not the oldest parked task";
 
 pub fn property() -> Property {
-    Property { id: "C03", level: "exploration", rule: "", assumptions: vec![], subs: vec![], max_parallel: 16 }
+    let mut subs: Vec<Box<dyn DynSub>> = Vec::new();
+    for (_, n, wname, rname) in POOLS {
+        let opts = move |o: &mut SubOpts| {
+            o.env.push(("RAYON_NUM_THREADS".into(), n.to_string()));
+            o.isolate = true;
+            o.hang_is_violation = true;
+            o.timeout_s = (240, 2400);
+            o.case_budget_s = CASE_BUDGET_S;
+            o.max_shrink_iters = 400;
+            // one shard process per pool size: a hang that is reproduced costs the engine a full
+            // 10x-budget re-run per dead shard, and the re-runs are sequential
+            o.max_shards = 1;
+        };
+        subs.push(sub(wname, WRULE, wcase_strategy, check_writer, 3_000, 40_000).with(opts).boxed());
+        subs.push(sub(rname, RRULE, rcase_strategy, check_reader, 3_000, 40_000).with(opts).boxed());
+    }
+    for (n, name) in [("1", "window_p1"), ("2", "window_p2"), ("3", "window_p3")] {
+        subs.push(
+            EnumSub { name, rule: ERULE, run: window_shard, replay: window_replay, shards: (1, 2), opts: SubOpts::default() }
+                .with(|o| {
+                    o.env.push(("RAYON_NUM_THREADS".into(), n.to_string()));
+                    o.isolate = true;
+                    o.hang_is_violation = true;
+                    o.timeout_s = (300, 2400);
+                    o.case_budget_s = CASE_BUDGET_S;
+                    o.exhaustive = true;
+                })
+                .boxed(),
+        );
+    }
+    Property {
+        id: "C03",
+        level: "exploration",
+        rule: "write/flush histories and reader call histories × pool size (RAYON_NUM_THREADS ∈ {1,2,3,4,8,16}) × completion order of the block tasks (gate scheduler on the noodles_verif task hook) × sink fault / damaged block position",
+        assumptions: vec![
+            "the single-threaded Writer / Reader are the reference (they are checked on their own by C01 / C02)".into(),
+            "the task hook is called at the first statement of every block task and after its result was sent; interleavings inside a task and of the channel operations are left to the OS".into(),
+            "seeks to the very end of the file and >=64 KiB reads at end of file are kept out of the histories (stale-block defects recorded under C02)".into(),
+            "gate fallback timeouts affect only which schedule is explored; genuine hangs are detected by the engine's isolated re-run".into(),
+            "frame-level damage (truncation, BSIZE) may surface from finish() only; this is accepted as 'a later call'".into(),
+        ],
+        subs,
+        max_parallel: 16,
+    }
 }
